@@ -7,15 +7,17 @@
 (***************************************************************************)
 EXTENDS JsonTree
 
-\* names that exercise the order: "B.json" < "a.json" < "a10.json" < "a2.json" < "x.v2.json"
+\* names that exercise the order (code points of the whole NAME, not of the stem):
+\*   "B.json" < "a-b.json" < "a.json" < "a10.json" < "a2.json" < "x.v2.json"      ("-" < "." < "1")
 NameCp(n) == CASE n = "a.json"    -> <<97, 46, 106, 115, 111, 110>>
                [] n = "B.json"    -> <<66, 46, 106, 115, 111, 110>>
                [] n = "a10.json"  -> <<97, 49, 48, 46, 106, 115, 111, 110>>
                [] n = "a2.json"   -> <<97, 50, 46, 106, 115, 111, 110>>
                [] n = "x.v2.json" -> <<120, 46, 118, 50, 46, 106, 115, 111, 110>>
-Names == {"a.json", "B.json", "a10.json", "a2.json"}
-Rank(n) == CASE n = "B.json" -> 1 [] n = "a.json" -> 2 [] n = "a10.json" -> 3 [] n = "a2.json" -> 4
-             [] n = "x.v2.json" -> 5
+               [] n = "a-b.json"  -> <<97, 45, 98, 46, 106, 115, 111, 110>>
+Names == {"a.json", "B.json", "a10.json", "a2.json", "a-b.json"}
+Rank(n) == CASE n = "B.json" -> 1 [] n = "a-b.json" -> 2 [] n = "a.json" -> 3 [] n = "a10.json" -> 4
+             [] n = "a2.json" -> 5 [] n = "x.v2.json" -> 6
 
 Scalar(n) == [t |-> "i", n |-> n]
 D1(k, cp, v) == [t |-> "d", k |-> <<k>>, kc |-> <<cp>>, v |-> <<v>>]
